@@ -19,7 +19,8 @@ RULE = ("case (a) = a batch of flag words: subsets of the 18 flag bits known to 
         "sha1(case)+interpreter; evaluations counts batches/alterations, coverage.flag_words counts words")
 ASSUMPTIONS = ["known flag bits are read by the harness from dis.COMPILER_FLAG_NAMES and __future__ of each interpreter (18 bits on each of 3.7-3.10)",
                "base code family: functions of every parameter kind, closure, generator, coroutine, async generator, class body, comprehension, lambda"]
-REQUIRED_CLASSES = ["word_known_only", "word_with_unknown_bit", "alteration_accepted", "header_reproduced_checked", "from_code_raised"]
+REQUIRED_CLASSES = ["word_known_only", "word_with_unknown_bit", "alteration_accepted", "header_reproduced_checked", "from_code_raised",
+                    "via_parent", "altered_co_stacksize", "altered_co_filename"]
 
 BITS37 = [1, 2, 4, 8, 16, 32, 64, 128, 256, 512] + [0x2000 << i for i in range(8)]
 BITS38 = [1, 2, 4, 8, 16, 32, 64, 128, 256, 512] + [0x20000 << i for i in range(8)]
@@ -68,9 +69,16 @@ def fixed_cases(tier):
     # every single bit 0..63, alone
     out.append({"words": [1 << i for i in range(64)], "_label": "single_bits"})
     out.append({"words": [0, 3, 0x43, 0x63, 0x20 | 0x40 | 3, 0x2003], "_label": "flag_words"})
-    for t in range(16):
+    for t in range(20):
         for bit in range(32):
             out.append({"alter": {"target": t, "flags_xor": 1 << bit}, "_label": "header_single_bit"})
+        # function flags cleared together (a function turned into non-function code), each star flag alone
+        for x in (3, 3 | 4, 3 | 8, 4, 8, 12, 0x20, 0x80, 0x200, 0x20 | 3, 0x80 | 3, 0x200 | 3):
+            out.append({"alter": {"target": t, "flags_xor": x}, "_label": "header_flag_groups"})
+        for via in (False, True):
+            out.append({"alter": {"target": t, "stacksize_d": 7, "via_parent": via}, "_label": "header_fields"})
+            out.append({"alter": {"target": t, "filename": "second.py", "via_parent": via}, "_label": "header_fields"})
+            out.append({"alter": {"target": t, "stacksize_d": 3, "filename": "third.py", "via_parent": via}, "_label": "header_fields"})
     if tier == "thorough":
         step = 2048
         for v in VERSIONS:
